@@ -158,3 +158,56 @@ func c16Shorts(xs []string) []string {
 	}
 	return o
 }
+
+// ---- xpoa rotation (reference, written from the statement) ----------------------------------------
+
+// c16RefXpoaSlot is the rotation the statement describes for xpoa: time (milliseconds since the
+// epoch) is cut into terms of n*blockNum slots of `period` ms; inside a term the validator at list
+// position i owns the blockNum consecutive slots [i*blockNum, (i+1)*blockNum). It returns the term
+// (counted from 0), the list position of the entitled validator and the slot inside its turn (from 0).
+func c16RefXpoaSlot(tsNs, period, blockNum int64, n int) (term, pos, slot int64) {
+	ms := tsNs / 1000000
+	turn := period * blockNum
+	termLen := turn * int64(n)
+	term = ms / termLen
+	off := ms % termLen
+	return term, off / turn, (off % turn) / period
+}
+
+// c16RefXpoaEntitled names the producer entitled at tsNs when `set` is the validator list in force
+// ("" when the reference names nobody: empty list or an instant before the epoch).
+func c16RefXpoaEntitled(tsNs, period, blockNum int64, set []string) string {
+	if len(set) == 0 || tsNs < 0 || period <= 0 || blockNum <= 0 {
+		return ""
+	}
+	_, pos, _ := c16RefXpoaSlot(tsNs, period, blockNum, len(set))
+	return set[pos]
+}
+
+// c16Epoch is one validator list and the height of the block whose transaction installed it
+// (0: the configured initial list).
+type c16Epoch struct {
+	H   int64
+	Set []string
+}
+
+// c16Window is the number of blocks after the block carrying a validator change during which the
+// oracle accepts either list: the statement does not say when a change comes into force, so only
+// heights before the change and at least c16Window blocks after it are judged against one list.
+const c16Window = 6
+
+// c16Admissible returns the lists that may govern a block of the given height: from the list of the
+// last change that lies at least c16Window blocks back to the list of the last change at or below
+// the height (epochs are ordered by height; the first is the initial list).
+func c16Admissible(epochs []c16Epoch, height int64) []c16Epoch {
+	lo, hi := 0, 0
+	for i := 1; i < len(epochs); i++ {
+		if epochs[i].H <= height {
+			hi = i
+		}
+		if epochs[i].H+c16Window <= height {
+			lo = i
+		}
+	}
+	return epochs[lo : hi+1]
+}
